@@ -41,6 +41,21 @@ func check(c *mon.Ctx, s []byte, class string) {
 	if res := gots.ComputeCRC(ext); !bytes.Equal(res, []byte{0, 0, 0, 0}) {
 		c.Fail("crc:residue", fmt.Sprintf("ComputeCRC(s ++ ComputeCRC(s)) = %x, not zero", res), wit{mon.Hex(s), mon.Hex(res), "00000000", ""})
 	}
+	// the same buffer edited in place and checksummed again (a result must not be remembered by buffer identity)
+	if len(s) > 0 {
+		k := len(s) / 2
+		s[k] ^= 0x5a
+		g2 := gots.ComputeCRC(s)
+		w2 := ref.BE32(ref.CRC32MPEG2(s))
+		s[k] ^= 0x5a
+		c.Eval(1)
+		if !bytes.Equal(g2, w2) {
+			c.Fail("crc:value-after-in-place-edit", fmt.Sprintf("ComputeCRC of a %d-byte buffer that was edited in place after an earlier call returned %x, CRC-32/MPEG-2 is %x", len(s), g2, w2), wit{mon.Hex(s), mon.Hex(g2), mon.Hex(w2), "byte " + fmt.Sprint(k) + " flipped between the two calls"})
+		}
+		if g3 := gots.ComputeCRC(s); !bytes.Equal(g3, want) {
+			c.Fail("crc:value-after-restoring", "ComputeCRC differs between two calls on equal content", wit{mon.Hex(s), mon.Hex(g3), mon.Hex(want), ""})
+		}
+	}
 	if class != "" && c.Class(class) && c.WantSample() && len(s) > 2 && len(s) < 40 {
 		c.Sample(func() interface{} { return wit{mon.Hex(s), mon.Hex(got), mon.Hex(want), class} })
 	}
@@ -120,7 +135,12 @@ func run(c *mon.Ctx) {
 			s.SetCommandInfo(si)
 		}
 		var ds []scte35.SegmentationDescriptor
-		for k := r.Intn(4); k > 0; k-- {
+		nd := r.Intn(4)
+		big := r.Chance(12)
+		if big {
+			nd = 5 + r.Intn(8) // with long UPIDs: a section above 1023 bytes (12-bit section_length)
+		}
+		for k := nd; k > 0; k-- {
 			d := scte35.CreateSegmentationDescriptor()
 			d.SetEventID(r.Uint32())
 			d.SetTypeID(scte35.SegDescType(r.PickByte([]byte{0x10, 0x11, 0x30, 0x34, 0x35, 0x36, 0x40})))
@@ -129,6 +149,10 @@ func run(c *mon.Ctx) {
 			d.SetUPIDType(scte35.SegUPIDType(r.PickByte([]byte{0, 1, 9, 0x0c})))
 			if d.UPIDType() != 0 {
 				d.SetUPID(r.Bytes(r.Intn(30)))
+			}
+			if big {
+				d.SetUPIDType(0x0c)
+				d.SetUPID(r.Bytes(180 + r.Intn(60)))
 			}
 			ds = append(ds, d)
 		}
@@ -143,7 +167,7 @@ func run(c *mon.Ctx) {
 		if len(sec) < 4 || ref.CRC32MPEG2(sec) != 0 {
 			c.Fail("crc:emitted-scte35", "the CRC-32/MPEG-2 of a section emitted by UpdateData is not zero", wit{Input: mon.Hex(sec)})
 		}
-		c.Class(fmt.Sprintf("emitted-scte35/cmd=%d/descs=%d/stuffing=%v", s.Command(), len(ds), stuff > 0))
+		c.Class(fmt.Sprintf("emitted-scte35/cmd=%d/descs=%d/stuffing=%v/over1023=%v", s.Command(), len(ds), stuff > 0, len(sec) > 1026))
 	})
 	c.Stream("emitted-pmt", c.N(2000, 1000000), func(i int, r *gen.Rand) {
 		// a small reference-built PMT in one packet, filtered to a subset of its streams
@@ -165,6 +189,10 @@ func run(c *mon.Ctx) {
 		sl := len(body) + 4
 		sec := append([]byte{0x02, 0xb0 | byte(sl>>8), byte(sl)}, body...)
 		sec = append(sec, ref.BE32(ref.CRC32MPEG2(sec))...)
+		badIn := r.Chance(4)
+		if badIn {
+			sec[len(sec)-1-r.Intn(4)] ^= byte(1 + r.Intn(255)) // the input's own CRC_32 is wrong: the emitted section must still carry a right one
+		}
 		var pk packet.Packet
 		pk[0], pk[1], pk[2], pk[3] = 0x47, 0x40|0x01, 0x00, 0x10
 		for k := 4; k < 188; k++ {
@@ -173,6 +201,9 @@ func run(c *mon.Ctx) {
 		pk[4] = 0
 		copy(pk[5:], sec)
 		keep := pids[:1+r.Intn(n)]
+		if r.Chance(3) {
+			keep = pids // nothing is filtered out
+		}
 		out, err := psi.FilterPMTPacketsToPids([]*packet.Packet{&pk}, keep)
 		c.Eval(1)
 		if err != nil || len(out) != 1 {
@@ -184,7 +215,7 @@ func run(c *mon.Ctx) {
 		if l > len(pay) || ref.CRC32MPEG2(pay[:l]) != 0 {
 			c.Fail("crc:emitted-pmt", "the CRC-32/MPEG-2 of the section emitted by FilterPMTPacketsToPids is not zero", wit{Input: mon.Hex(out[0][:])})
 		}
-		c.Class(fmt.Sprintf("emitted-pmt/streams=%d/kept=%d", n, len(keep)))
+		c.Class(fmt.Sprintf("emitted-pmt/streams=%d/kept=%d/input-crc-wrong=%v", n, len(keep), badIn))
 	})
 }
 
